@@ -38,13 +38,13 @@ def run_driver(work, tier, seed):
     return json.load(open(out))
 
 
-def eval_files(work, prefix, items, per, render):
+def eval_files(work, prefix, items, per, render, hdr=None):
     """items -> files of `Eval vm_compute in <bool>.`; returns list of booleans aligned with items"""
     files = []
     for ci in range(0, len(items), per):
         sub = items[ci:ci + per]
         f = os.path.join(work, '%s_%03d.v' % (prefix, ci // per))
-        open(f, 'w').write(HDR + ''.join('Eval vm_compute in (%s).\n' % render(it) for it in sub))
+        open(f, 'w').write((hdr or HDR) + ''.join('Eval vm_compute in (%s).\n' % render(it) for it in sub))
         files.append((f, sub))
     res = coqc_many([f for f, _ in files], timeout=900)
     out = []
@@ -106,7 +106,7 @@ def run(rep, work, tier, seed, only=None):
                 % (bad[0], [str(x) for x in bad[2]], r['dicts'][bad[0]], [str(x) for x in bad[1]])) if bad else 'distribution obligation false'
         rep.violation(ikey(r, 'probability_distribution'),
                       '%s%s deformation=%s axis=%s direction=%s/8 p=%d/16%s: %s' % (r['cls'], tuple(r['size']), r['name'], r['axis'], r['dir'], r['p16'],
-                                                                                    ' (asked again after generate() and get_weights() on the same objects)' if r.get('again') else '', what),
+                                                                                    ' (asked again after generate(), get_weights() and error_probability() on the same objects)' if r.get('again') else '', what),
                       {'instance': ikey(r, 'probability_distribution'), 'direction_eighths': r['dir'], 'rate_sixteenths': r['p16'],
                        'qubit': bad[0] if bad else None}, no_input=bad is None)
     # (b) sampling
